@@ -172,9 +172,22 @@ pub fn property(text: &str) -> Result<(usize, bool), String> {
 	let mut result = (0, false);
 	// three ways to obtain (value, code map): strict parse_str; parse over DecodedChar with UTF-16 lengths;
 	// flexible options when the document has unpaired/lone surrogate escapes
-	for mode in 0..3 {
+	for mode in 0..5 {
+		// modes 1, 3, 4: DecodedChar streams whose source lengths are UTF-16 code units, UTF-16 bytes, constant 3
+		let lengths = |len: &dyn Fn(char) -> usize| {
+			let mut o = Vec::with_capacity(chars.len() + 1);
+			let mut p = 0;
+			for c in &chars {
+				o.push(p);
+				p += len(*c);
+			}
+			o.push(p);
+			o
+		};
 		let parsed = match mode {
-			0 if strict_ok => Some((Value::parse_str(text), crate::refjson::utf8_offsets(&chars))),
+			3 if strict_ok => Some((Value::parse(chars.iter().map(|c| Ok::<_, ()>(decoded_char::DecodedChar::new(*c, 2 * c.len_utf16())))).map_err(|e| format!("{e:?}")), lengths(&|c| 2 * c.len_utf16()))),
+			4 if strict_ok => Some((Value::parse_infallible_with(chars.iter().map(|c| decoded_char::DecodedChar::new(*c, 3)), json_syntax::parse::Options::strict()).map_err(|e| format!("{e:?}")), lengths(&|_| 3))),
+			0 if strict_ok => Some((Value::parse_str(text).map_err(|e| format!("{e:?}")), crate::refjson::utf8_offsets(&chars))),
 			1 if strict_ok => {
 				let mut o = Vec::with_capacity(chars.len() + 1);
 				let mut p = 0;
@@ -183,9 +196,9 @@ pub fn property(text: &str) -> Result<(usize, bool), String> {
 					p += c.len_utf16();
 				}
 				o.push(p);
-				Some((Value::parse_infallible(chars.iter().map(|c| decoded_char::DecodedChar::from_utf16(*c))), o))
+				Some((Value::parse_infallible(chars.iter().map(|c| decoded_char::DecodedChar::from_utf16(*c))).map_err(|e| format!("{e:?}")), o))
 			}
-			2 if !strict_ok => Some((Value::parse_str_with(text, json_syntax::parse::Options::flexible()), crate::refjson::utf8_offsets(&chars))),
+			2 if !strict_ok => Some((Value::parse_str_with(text, json_syntax::parse::Options::flexible()).map_err(|e| format!("{e:?}")), crate::refjson::utf8_offsets(&chars))),
 			_ => None,
 		};
 		if let Some((res, off)) = parsed {
@@ -197,10 +210,28 @@ pub fn property(text: &str) -> Result<(usize, bool), String> {
 					other => return Err(format!("mode {mode}: code-map entry {i} is {:?}, the fragment's source text is {}..{}", other.map(|e| (e.span.start(), e.span.end())), off[f.start], off[f.end])),
 				}
 			}
-			result = navigate(&v, &cm, &doc).map_err(|m| format!("mode {mode} (0 = parse_str, 1 = parse over UTF-16 lengths, 2 = flexible options): {m}"))?;
+			result = navigate(&v, &cm, &doc).map_err(|m| format!("mode {mode} (0 = parse_str, 1 = parse_infallible over UTF-16 code units, 2 = flexible options, 3 = parse over UTF-16 byte lengths, 4 = parse_infallible_with over constant length 3): {m}"))?;
 		}
 	}
 	Ok(result)
+}
+
+fn recloned(v: &Value) -> Value {
+	match v {
+		Value::Array(a) => Value::Array(a.iter().map(recloned).collect()),
+		Value::Object(src) => {
+			let mut o = json_syntax::Object::new();
+			o.push("previous".into(), Value::Null);
+			o.push("content".into(), Value::Null);
+			o.clone_from(src);
+			for e in o.iter_mut() {
+				let r = recloned(e.1);
+				*e.1 = r;
+			}
+			Value::Object(o)
+		}
+		other => other.clone(),
+	}
 }
 
 fn navigate(v: &Value, cm: &CodeMap, doc: &RefDoc) -> Result<(usize, bool), String> {
@@ -211,6 +242,9 @@ fn navigate(v: &Value, cm: &CodeMap, doc: &RefDoc) -> Result<(usize, bool), Stri
 	}
 	let mut stats = (false, false);
 	walk(&v, &cm, doc, 0, &mut stats)?;
+	// the same navigation on a copy whose objects were produced by `clone_from` into objects with a life of their own
+	let mut stats2 = (false, false);
+	walk(&recloned(&v), &cm, doc, 0, &mut stats2).map_err(|m| format!("on a copy made with Object::clone_from: {m}"))?;
 	// get_fragment(i) == i-th fragment of the traversal; past the end: remaining distance
 	let trav: Vec<(u8, usize)> = v.traverse().map(|(_, f)| frag_id(f)).collect();
 	if trav.len() != n {
